@@ -298,9 +298,37 @@ def build_edited(spec: NetSpec, P: dict, mode: str = "links", engine=None) -> Bu
                           leave the network;
       mode "attachments": first the links are final, but ramps at interior nodes are missing and the other
                           origins/destinations are different objects of another kind; the edit attaches the final
-                          origins and destinations (no link is touched afterwards)."""
+                          origins and destinations (no link is touched afterwards);
+      mode "params":      final topology and objects, other parameter VALUES at the first step; the edit sets the public
+                          attributes (lanes, lengths, turn rates, capacities, ...) to the described values."""
     import numpy as _np
 
+    if mode == "params":
+        # the final topology and objects, but every link / ramp parameter has ANOTHER value while the network is first
+        # stepped; afterwards the public attributes are set to the described values (no construction call at all)
+        ov = {}
+        for i, l in enumerate(spec.links):
+            ov.update({(f"L{i}", "lam"): l.lam + 1, (f"L{i}", "L"): l.L * 1.1, (f"L{i}", "rho_max"): l.rho_max + 5.0,
+                       (f"L{i}", "rho_crit"): l.rho_crit + 1.0, (f"L{i}", "v_free"): l.v_free - 3.0, (f"L{i}", "a"): l.a + 0.05,
+                       (f"L{i}", "beta"): l.beta * 2.0 + 0.3 * i, (f"L{i}", "alpha"): l.alpha + 0.05})
+        for o in spec.origins:
+            ov[(f"O{o.node}", "C")] = o.C + 321.0
+        b = build(spec, override=ov)
+        touch_lookups(b.net)
+        if engine is None:
+            from sym_metanet.engines.numpy import Engine as _NE
+
+            engine = _NE(_np.float64(27.5))
+        b.net.step(engine=engine, **P)
+        for i, l in enumerate(spec.links):
+            el = b.obj[f"L{i}"]
+            el.lam, el.L, el.rho_max, el.rho_crit, el.v_free, el.a, el.turnrate = l.lam, l.L, l.rho_max, l.rho_crit, l.v_free, l.a, l.beta
+            if l.vsl is not None:
+                el.alpha = l.alpha
+        for o in spec.origins:
+            if o.kind not in ("ideal", "main"):
+                b.obj[f"O{o.node}"].C = o.C
+        return b
     obj = make_elements(spec)
     net = M.Network(name="net")
     nodes = [obj[f"n{i}"] for i in range(spec.n)]
